@@ -317,7 +317,9 @@ func c15Run(raw json.RawMessage, c *mc.Ctx) {
 				if clay > 25 {
 					tex = "LT3"
 				}
-				hor := []proj.Horizon{{Tex: tex, Lower: 4, BD: 3, Corg: corg, CN: 10, PS: 70, Sand: sp.Sand, Silt: silt, Clay: clay}}
+				// (the pore volume of this route is the user's explicit value: it is chosen above every field capacity the
+				// four functions yield on the grid - 70.05 % for 83 % clay with 6 % carbon - so that the input is consistent)
+				hor := []proj.Horizon{{Tex: tex, Lower: 4, BD: 3, Corg: corg, CN: 10, PS: 78, Sand: sp.Sand, Silt: silt, Clay: clay}}
 				c15RunCase(c, sp, c15Case{Hor: hor, PTF: sp.PTF, GW: 99}, fmt.Sprintf(" ptf%d", sp.PTF), fmt.Sprintf("PTF %d sand %d silt %d clay %d Corg %g", sp.PTF, sp.Sand, silt, clay, corg))
 			}
 		}
